@@ -201,3 +201,183 @@ Proof.
     repeat (destruct Hi as [<-|Hi]; [vm_compute; discriminate|]). destruct Hi.
   - apply functionalb_ok. vm_compute. reflexivity.
 Qed.
+
+(* ------------------------------------------------------------------ a kill INSIDE an operation *)
+(* level_prekeys is interruptible: every insert commits on its own, so a process killed while it stores a batch
+   leaves the rows before the operation plus a PREFIX of the batch (the first m keys, ids max+1 .. max+m, the next
+   m serials).  XKillConnect m: killed inside the refill of on_connected; XKillAsk sg m: killed inside the
+   reaction to a key-count request, after the ack went out, with the new signed prekey stored (sg) or not yet.
+   In both cases nothing else of the operation happened for the outside world (no upload), the in-memory state
+   is gone (Restart), and generating a prefix is `level` with the prefix length as batch size. *)
+Inductive xop := XOp (o : op) | XKillConnect (m : nat) | XKillAsk (sg : bool) (m : nat).
+
+Definition level_prefix (m : nat) (force : bool) (s : st) : st :=
+  match m with O => s | S _ => fst (level m force s) end.
+
+Definition restart_of (s : st) : st := fst (step 0 s Restart).
+
+Definition xstep (batch : nat) (s : st) (x : xop) : st * list ev :=
+  match x with
+  | XOp o => step batch s o
+  | XKillConnect m => (restart_of (level_prefix m false s), [])
+  | XKillAsk sg m =>
+    (restart_of (level_prefix m true (if sg then fst (gen_signed s) else s)), [EAck])
+  end.
+
+Fixpoint xrun (batch : nat) (s : st) (xs : list xop) : st * list (list ev) :=
+  match xs with
+  | [] => (s, [])
+  | x :: xs' =>
+    let '(s1, e) := xstep batch s x in
+    let '(s2, es) := xrun batch s1 xs' in (s2, e :: es)
+  end.
+
+Definition xfinal (batch : nat) (xs : list xop) : st := fst (xrun batch init xs).
+
+(* an invariant of the model that level and gen_signed keep on their own is kept by kills inside operations *)
+Lemma xstep_inv (P : st -> Prop) :
+  (forall b s o, P s -> P (fst (step b s o))) ->
+  (forall m f s, P s -> P (fst (level m f s))) ->
+  (forall s, P s -> P (fst (gen_signed s))) ->
+  forall batch s x, P s -> P (fst (xstep batch s x)).
+Proof.
+  intros Hs Hl Hg batch s x H. destruct x as [o|m|sg m]; cbn [xstep fst].
+  - apply Hs, H.
+  - unfold restart_of. apply Hs. destruct m; cbn [level_prefix]; [exact H|apply Hl, H].
+  - unfold restart_of. apply Hs.
+    assert (H1 : P (if sg then fst (gen_signed s) else s)) by (destruct sg; [apply Hg, H|exact H]).
+    destruct m; cbn [level_prefix]; [exact H1|apply Hl, H1].
+Qed.
+
+Lemma xrun_inv (P : st -> Prop) batch :
+  (forall s x, P s -> P (fst (xstep batch s x))) -> forall xs s, P s -> P (fst (xrun batch s xs)).
+Proof.
+  intros Hs. induction xs as [|x xs IH]; intros s H; cbn [xrun]; [exact H|].
+  specialize (Hs s x H). destruct (xstep batch s x) as [s1 e]. specialize (IH s1 Hs).
+  destruct (xrun batch s1 xs) as [s2 es]. exact IH.
+Qed.
+
+Lemma invA_x batch xs : invA (xfinal batch xs).
+Proof.
+  unfold xfinal. apply xrun_inv; [|exact invA_init]. apply xstep_inv.
+  - intros b s o. apply step_invA.
+  - intros m f s H. destruct (level m f s) as [s' nk] eqn:L. exact (level_invA _ _ _ _ _ H L).
+  - intros s H. destruct (gen_signed s) as [s' sg] eqn:G. exact (gen_signed_invA _ _ _ H G).
+Qed.
+
+Lemma invB_x batch xs : invB (xfinal batch xs).
+Proof.
+  unfold xfinal. apply xrun_inv; [|exact invB_init]. apply xstep_inv.
+  - intros b s o. apply step_invB.
+  - intros m f s H. destruct (level m f s) as [s' nk] eqn:L. exact (proj1 (level_invB _ _ _ _ _ H L)).
+  - intros s H. destruct (gen_signed s) as [s' sg] eqn:G. exact (proj1 (gen_signed_invB _ _ _ H G)).
+Qed.
+
+Lemma level_invE m f s : invE s -> invE (fst (level m f s)).
+Proof.
+  unfold invE. intros H. destruct (level m f s) as [s' nk] eqn:L.
+  destruct (level_E _ _ _ _ _ L) as [Ec [Ep [Eu Er]]]. cbn [fst]. rewrite Ec, Ep, Eu.
+  destruct Er as [[-> [-> _]]|[-> [-> _]]]; [exact H|apply PE_level; exact H].
+Qed.
+
+Lemma gen_signed_invE s : invE s -> invE (fst (gen_signed s)).
+Proof.
+  unfold invE. intros H. destruct (gen_signed s) as [s' sg] eqn:G.
+  destruct (signed_E _ _ _ (or_intror G)) as [Ec [Ep [Eu [Er [En _]]]]]. cbn [fst].
+  rewrite Ec, Ep, Eu, Er, En. exact H.
+Qed.
+
+Lemma invE_x batch xs : invE (xfinal batch xs).
+Proof.
+  unfold xfinal. apply xrun_inv; [|exact invE_init]. apply xstep_inv.
+  - intros b s o. apply step_invE.
+  - intros m f s. apply level_invE.
+  - intros s. apply gen_signed_invE.
+Qed.
+
+(* The upload-side theorems for histories with kills inside operations (any prefix length, any number of
+   kills): sent flag only after a confirmed upload that carried the id; a confirmed key never counts as pending
+   again; an offered id names one key as long as every refill - a killed one included - started above every id
+   issued before (rf): a mid-batch kill leaves ids max+1 .. max+m, so the next refill continues at max+m+1 and
+   rf is NOT falsified by kills, only by the consumption of the highest ids (the open finding). *)
+Theorem kills_inside_thm : forall batch xs,
+  (forall i k, In (i, (k, true)) (rows (xfinal batch xs)) ->
+     exists u, In u (conf_ups (xfinal batch xs)) /\ In u (sent_ups (xfinal batch xs)) /\
+               In i (map fst (u_keys u))) /\
+  (forall c x, In c (conf_ups (xfinal batch xs)) -> In x (u_keys c) ->
+     ~ In x (unsent_rows (rows (xfinal batch xs)))) /\
+  (rf (xfinal batch xs) = true -> functional (offered (xfinal batch xs))).
+Proof.
+  intros batch xs. split; [|split].
+  - intros i k H. destruct (invA_x batch xs) as [a1 a2 a3 a4].
+    destruct (a1 _ _ H) as [u [Hu Hi]]. exists u. split; [exact Hu|]. split; [apply a2; exact Hu|].
+    apply (a4 u (a2 u Hu)). exact Hi.
+  - intros c [i k] Hc Hk Hu. destruct (invE_x batch xs) as [e1 _].
+    apply unsent_rows_in in Hu. specialize (e1 c i k false Hc Hk Hu). discriminate e1.
+  - intros Hrf. destruct (invB_x batch xs) as [b1 b2 b3 b4 b5].
+    intros i k1 k2 H1 H2. apply (b1 Hrf i k1 k2); apply b5; assumption.
+Qed.
+
+(* non-vacuity: batch 5, two logins confirmed (10 keys), a key-count request killed after 2 of 5 inserts, the
+   partial batch offered and confirmed, another key-count request: ids 11,12 then 13..17, rf still true *)
+Definition kill_inside_history : list xop :=
+  [XOp Connect; XOp (Authed true); XOp (Result 0); XOp Disconnected;
+   XOp Connect; XOp (Authed true); XOp (Result 1); XOp Disconnected;
+   XOp Connect; XOp (Authed false); XKillAsk true 2;
+   XOp Connect; XOp (Authed true); XOp (Result 2); XOp Disconnected;
+   XOp Connect; XOp (Authed false); XOp AskKeys].
+
+Example kill_inside_example :
+  rf (xfinal 5 kill_inside_history) = true /\
+  map fst (rows (xfinal 5 kill_inside_history)) = [1; 2; 3; 4; 5; 6; 7; 8; 9; 10; 11; 12; 13; 14; 15; 16; 17] /\
+  length (conf_ups (xfinal 5 kill_inside_history)) = 3%nat /\
+  functionalb (offered (xfinal 5 kill_inside_history)) = true.
+Proof. vm_compute. repeat split; reflexivity. Qed.
+
+(* ------------------------------------------------------------------ refuted: counter advanced after the batch *)
+(* Variant of level_prekeys (not today's code; shape of seeded change C14-10): a refill starts at a persisted
+   counter (fallback max+1 while it is unset), storePreKey is INSERT OR REPLACE, and the counter is advanced only
+   after the whole batch has been stored.  vgen n complete: n keys from the counter, replacing rows with the same
+   id; the counter moves only when the batch completed. *)
+Definition replace_rows (nk : list (N * N)) (r : list (N * (N * bool))) : list (N * (N * bool)) :=
+  filter (fun e => negb (existsb (N.eqb (fst e)) (map fst nk))) r ++ map mkrow nk.
+
+Definition vgen (n : nat) (complete : bool) (s : st) (c : option N) : (st * option N) * list (N * N) :=
+  let start := match c with Some x => x | None => max_id (rows s) + 1 end in
+  let nk := combine (nseq start n) (nseq (next_ser s) n) in
+  ((set_rows (replace_rows nk (rows s))
+      (set_next_ser (next_ser s + N.of_nat n) (set_issued (issued s ++ nk) s)),
+    if complete then Some (start + N.of_nat n) else c), nk).
+
+(* key-count request: ack, new signed prekey, refill, upload *)
+Definition vask (batch : nat) (s : st) (c : option N) : st * option N :=
+  let '(s1, sg) := gen_signed s in
+  let '((s2, c2), nk) := vgen batch true s1 c in
+  (fst (flush sg nk false s2), c2).
+
+(* the same killed after m inserts: no upload, memory gone *)
+Definition vask_killed (m : nat) (s : st) (c : option N) : st * option N :=
+  let '((s2, c2), _) := vgen m false (fst (gen_signed s)) c in (restart_of s2, c2).
+
+(* batch 10 (so that no connect refills after the first one; the first batch, from the unset counter, is the
+   model's own and leaves the counter at 11): login confirmed, reboot, key-count request killed after 2 of 10
+   inserts, the new process offers 11 and 12 and the server confirms them, the next key-count request starts
+   from the stale counter 11 *)
+Definition counter_witness : st :=
+  let s1 := fst (run 10 init [Connect; Authed true; Result 0; Disconnected; Connect; Authed false]) in
+  let '(s2, c2) := vask_killed 2 s1 (Some 11) in
+  let s3 := fst (run 10 s2 [Connect; Authed true; Result 1; Disconnected; Connect; Authed false]) in
+  fst (vask 10 s3 c2).
+
+Theorem counter_after_batch_refuted_thm :
+  let s := counter_witness in
+  (* id 11 was offered with key #10, that upload was confirmed ... *)
+  (exists c, In c (conf_ups s) /\ In (11, 10) (u_keys c)) /\
+  (* ... and is offered again with key #12: one id, two keys; the confirmed key is gone, the id pending again *)
+  In (11, 10) (offered s) /\ In (11, 12) (offered s) /\
+  lookup_row 11 (rows s) = Some 12 /\ In (11, 12) (unsent_rows (rows s)) /\
+  functionalb (offered s) = false.
+Proof.
+  vm_compute. split; [|repeat split; tauto].
+  eexists. split; [right; left; reflexivity|]. left. reflexivity.
+Qed.
